@@ -223,7 +223,15 @@ def verify_target(repo_root: str, relpath: str, qualname: str, contract: dict, r
         eng.unsupported, eng.stmts_modelled, eng.paths_done = all_unsupported, modelled, paths
         missing = set(contract.get('ghost_after', {})) - ghost_hits
         if missing and not all_unsupported:
-            raise SpecError(f'{qualname}: ghost_after anchors not found in the source (spec drift): {sorted(missing)}')
+            present = {ast.unparse(n) for n in ast.walk(node) if isinstance(n, ast.stmt)}
+            gone = sorted(m for m in missing if m not in present)
+            if gone:
+                raise SpecError(f'{qualname}: ghost_after anchors not found in the source (spec drift): {gone}')
+            # the anchor statement is still in the source but no explored path reached it (dead branch under this contract): not drift;
+            # reported so that the function cannot count as fully verified
+            for m in sorted(missing):
+                all_unsupported.append((node.lineno, f'ghost anchor never reached on any explored path: {m}'))
+            eng.unsupported = all_unsupported
         body_stmts = [n for n in ast.walk(node) if isinstance(n, ast.stmt) and n is not node
                       and not (isinstance(n, ast.Expr) and isinstance(n.value, ast.Constant))]
         rep['stmts_total'] = len({n.lineno for n in body_stmts})
